@@ -326,12 +326,14 @@ func (c *Collection) WriteCas(key string, exp Exp, cas CAS, val any, opt sgbucke
 	err = c.withNewCas(func(txn *sql.Tx, newCas CAS) (*event, error) {
 		wasTombstone := false
 		var revSeqNo uint64
-		if cas != 0 {
-			row := txn.QueryRow("SELECT revSeqNo, tombstone FROM documents WHERE collection=? AND key=?", c.id, key)
-			err = scan(row, &revSeqNo, &wasTombstone)
-			if err != nil {
-				return nil, remapKeyError(err, key)
-			}
+		// Read the current revision (also when cas is 0: re-creating a tombstone continues its count)
+		row := txn.QueryRow("SELECT revSeqNo, tombstone FROM documents WHERE collection=? AND key=?", c.id, key)
+		err = scan(row, &revSeqNo, &wasTombstone)
+		if err != nil && (cas != 0 || err != sql.ErrNoRows) {
+			return nil, remapKeyError(err, key)
+		}
+		if wasTombstone && cas != 0 && (opt&sgbucket.Append) != 0 {
+			return nil, sgbucket.MissingError{Key: key} // there is no body to append to
 		}
 		revSeqNo++
 		exp = absoluteExpiry(exp)
@@ -377,6 +379,12 @@ func (c *Collection) WriteCas(key string, exp Exp, cas CAS, val any, opt sgbucke
 		xattrs, err := c.getRawXattrs(txn, key) // needed for the DCP event
 		if err != nil {
 			return nil, err
+		}
+		if (opt & sgbucket.Append) != 0 {
+			// the event must carry the whole stored body, not just the appended bytes
+			if raw, _, _, err = c.getRaw(txn, key); err != nil {
+				return nil, err
+			}
 		}
 		casOut = newCas
 		return &event{
